@@ -1,4 +1,4 @@
-(* C07: the declarative safety predicates of Spec/C07Spec.v next to what the model does on each leaf *)
+(* C07: the declarative predicates of Spec/C07Spec.v (which items must be diagnosed) next to what the model does on each leaf *)
 open Drv_base
 open Drv_ast
 
@@ -10,16 +10,16 @@ let parse_leaf7 tstr t (it : Model.item) : Model.ritem Model.outcome =
   | Model.IConst (a, i, ty, e) -> Model.parse_const uc tstr a i ty e
   | _ -> raise (Bad "leaf")
 
-(* (c07 FILE TSTRS T) -> (front_safe ((ident leaf_safe ok|err|panic site)..))   one entry per expected leaf *)
+(* (c07 FILE TSTRS T) -> (front_complete ((ident leaf_complete ok|err|panic site)..))   one entry per expected leaf *)
 let c07 args =
   match args with
   | [file; tstrs; t] ->
     let f = to_file file and tstr = to_tstr tstrs and t = to_list to_str t in
-    L [ of_bool (Model.front_safe uc tstr t f);
+    L [ of_bool (Model.front_complete uc tstr t f);
         of_list (fun it ->
           let kind, site = match parse_leaf7 tstr t it with
             | Model.Ok _ -> "ok", "-" | Model.Err _ -> "err", "-" | Model.Panic s -> "panic", coqstring s in
-          L [ str_to_atom (Model.leaf_ident it); of_bool (Model.leaf_safe uc tstr t it); A kind; A site ])
+          L [ str_to_atom (Model.leaf_ident it); of_bool (Model.leaf_complete uc tstr t it); A kind; A site ])
           (Model.expected_leaves t f) ]
   | _ -> raise (Bad "c07 args")
 
